@@ -19,6 +19,21 @@ CHECKS = {
                 note="Bounded: W<=3, T<=4, listed rung systems, brackets<=2; PASHA cap read from the implementation and checked for "
                      "monotonicity only; RUSH thresholds with >0 candidates not modelled.",
                 technique="explicit-state model checking of the implementation (BFS over event histories, digest dedup, reference-model oracle)"),
+    "C05": dict(engine="schedx", category="model_checking", design_ref="§2 C05",
+                text="Explicit-state BFS over every interleaving of suggest/report/fail events of the real "
+                     "SynchronousHyperbandScheduler for geometric and custom bracket systems, against a lock-step reference "
+                     "bracket model (slot filling, rung completion incl. failed jobs, top-n promotion, never-blocking suggest, "
+                     "cycling offsets).",
+                note="Bounded: W<=3, T<=7 trials, <=2 failures, listed bracket systems; order among promoted trials of one rung free.",
+                technique="explicit-state model checking of the implementation (BFS over event histories, digest dedup, reference-model oracle)"),
+    "C01": dict(engine="tunerx", category="model_checking", design_ref="§2 C01",
+                text="Stateless deviation-bounded exploration of the real Tuner.run over a scripted backend that inherits the real "
+                     "polling logic: all executions with <=k non-default environment answers around 8 default profiles, for 14 "
+                     "scheduler kinds x n_workers, checked by a life-cycle / occupancy / call-protocol monitor on the unified "
+                     "event log; the same TunerProtocol automaton is the driver grammar of the scheduler-level engine.",
+                note="Bounded: k<=1 (quick) / k<=2 (thorough) deviations, W<=3, 4-5 trials, 4 levels; process layer of LocalBackend "
+                     "replaced by scripted workers with immediate kills; simulator-backend configurations are covered under C10.",
+                technique="stateless model checking of the implementation (deviation-bounded enumeration of environment answers, replayed choice prefixes)"),
 }
 
 NOT_YET = {}
